@@ -38,6 +38,7 @@ ASSUMPTIONS = [
 ERR_IDS = {'InsufficientDataException': 0, 'ReservedCodeException': 1, 'InvalidStringException': 2,
            'UnhashableKeyException': 3, 'DuplicateKeyException': 4, 'TypeError': 5}
 ERR_NAMES = {v: k for k, v in ERR_IDS.items()}
+OUT_OF_DOMAIN = {'mutated', 'twin_bad', 'collision', 'ext_type'}
 FAMILY_IDS = {'_unpack_integer': 0, '_unpack_map': 1, '_unpack_array': 2, '_unpack_string': 3, '_unpack_nil': 4,
               '_unpack_reserved': 5, '_unpack_boolean': 6, '_unpack_binary': 7, '_unpack_ext': 8, '_unpack_float': 9}
 
@@ -587,9 +588,45 @@ def widen32_py(b):
     return sign | ((e + 896) << 52) | (f << 29)
 
 
+# code points that codecs, terminals and text layers treat specially: BOM / reversed BOM / non-characters, NUL
+# and other controls, line and paragraph separators, zero-width and bidi marks, the ends of the BMP planes
+# around the surrogate block, replacement character, the last code point
+SPECIAL_CPS = [0xfeff, 0xfffe, 0xffff, 0x0, 0x1, 0x7f, 0x80, 0x85, 0xa0, 0xad, 0x2028, 0x2029, 0x200b, 0x200e, 0x202e,
+               0xd7ff, 0xe000, 0xfffd, 0xfdd0, 0x10000, 0x1fffe, 0x10ffff, 0xd, 0xa, 0x9, 0x1a, 0x1b, 0xef, 0xbb, 0xbf]
+
+
+def special_strings(rng, quick):
+    """strings with a special code point at the START (also alone, doubled, in the middle, at the end), padded
+    across the 31/32 and 255/256 byte boundaries: a decoder that strips / normalises / refuses any of them
+    (utf-8-sig, errors=replace, C strings, newline translation) loses information exactly there."""
+    out = []
+    for cp in SPECIAL_CPS:
+        c = chr(cp)
+        w = len(c.encode('utf-8'))
+        out += [c, c + c, c + 'a', 'a' + c, c + 'abc' + c, c + '\u0436' + c + 'x']
+        for target in ((31, 32, 33) if quick else (30, 31, 32, 33, 34)):
+            out.append(c + 'p' * (target - w))
+        for target in ((255, 256) if quick else (254, 255, 256, 257, 258)):
+            out.append(c + 'q' * (target - w))
+        if not quick:
+            out.append(c + 'r' * (65536 - w))
+            out.append(c + 'r' * (65535 - w))
+    out += ['\ufeff' + 'z' * (65536 - 3), '\ufeff' + 'z' * (65535 - 3), '\x00' + 'z' * 65535, '\ufffe' * 3, '\ufeff\ufeff\ufeff',
+            '\r\n', '\n\r', 'a\x00b', '\x00' * 5]
+    seen = set()
+    res = []
+    for st in out:
+        if st not in seen:
+            seen.add(st)
+            res.append(st)
+    return res
+
+
 def rand_utf8(rng, maxlen=12):
     n = rng.choice([0, 1, 1, 2, 3, 5, maxlen])
     out = []
+    if rng.random() < 0.15:
+        out.append(chr(rng.choice(SPECIAL_CPS)))        # a special code point first
     for _ in range(n):
         k = rng.random()
         if k < 0.6:
@@ -942,7 +979,9 @@ def run(ctx):
         '(vm_compute): every integer within +-3 of +-2^5,2^7,2^8,2^15,2^16,2^31,2^32,2^63,2^64; str/bin/ext/array/map of every '
         'length within +-2 of 15,16,31,32,255,256,65535,65536; SEQUENCES of dumps calls in one process (long then short values of '
         'every kind, alternations, random mixes): each output byte-for-byte against the model and of exact length; non-ASCII strings (2-, 3-, 4-byte code points and mixtures) with the '
-        'character count and the UTF-8 byte count each swept +-2 across 31/32, 255/256, 65535/65536, alone, as map keys and nested; all 256 first bytes with empty/random/valid tails; every cut '
+        'character count and the UTF-8 byte count each swept +-2 across 31/32, 255/256, 65535/65536, alone, as map keys and nested; strings STARTING with a special code point (U+FEFF, U+FFFE, U+FFFF, NUL, controls, '
+        'U+2028/9, zero-width/bidi marks, U+D7FF/U+E000, U+FFFD, U+10FFFF ...) alone, padded across 31/32 and 255/256, in every '
+        'legal str format, as map keys next to their suffix and to \'\', nested, in dumps sequences; all 256 first bytes with empty/random/valid tails; every cut '
         'point of every encoding up to 80 bytes (sampled above); random nested values to depth 6; random spec-valid streams in '
         'arbitrary legal formats from the Python twin of Enc (well-formed and with colliding/unhashable keys, invalid UTF-8); '
         'mutated streams; UTF-8 edge cases; float32 patterns. (R) spec_decode reads back real dumps output and accepts the '
@@ -1069,10 +1108,14 @@ def run(ctx):
 
     seq_lens = []
 
-    def add_decode(b, origin, expect=None):
-        """a byte stream: unpack (I)."""
+    def add_decode(b, origin, domain=None):
+        """a byte stream: unpack (I). `domain`: inside the quantifier domain the property states (spec-valid
+        streams of well-formed values, first bytes, cut points); the rest (mutated streams, colliding or
+        unhashable keys, invalid UTF-8, ext type >= 0x80) is the extended domain of the model."""
         if cases.stopped:
             return ('err', -1, 'stopped')
+        if domain is None:
+            domain = origin not in OUT_OF_DOMAIN
         r = real.unpack(b)
         r2 = real.loads(b)
         if r[:2] != r2[:2]:
@@ -1080,7 +1123,8 @@ def run(ctx):
         ctx.histogram('decode_origin', origin)
         ctx.histogram('decode_result', 'ok' if r[0] == 'ok' else r[2])
         ctx.count(('dec', b[:4000], len(b)), len(b) > 1)
-        cases.add('CDec %s %s' % (bytes_term(b), obs_term(r)), {'kind': 'decode', 'bytes': b.hex() if len(b) < 5000 else b[:5000].hex(), 'observed': r[2] if r[0] == 'err' else 'ok'})
+        cases.add('CDec %s %s' % (bytes_term(b), obs_term(r)), {'kind': 'decode', 'bytes': b.hex() if len(b) < 5000 else b[:5000].hex(), 'observed': r[2] if r[0] == 'err' else 'ok',
+                   'origin': origin, 'domain': bool(domain)})
         return r
 
     def add_cuts(b, limit):
@@ -1101,10 +1145,10 @@ def run(ctx):
             return
         w = wf_py(mv, um)
         ctx.histogram('twin_wf', w)
-        info = {'kind': 'stream', 'value': mv_json(mv), 'bytes': b.hex()}
+        info = {'kind': 'stream', 'value': mv_json(mv), 'bytes': b.hex(), 'domain': bool(w)}
         cases.add('CSpec %s %s' % (bytes_term(b), value_term(mv)), info)
         cases.add('CWf %s %s' % (value_term(mv), 'true' if w else 'false'), info)
-        r = add_decode(b, origin)
+        r = add_decode(b, origin, domain=bool(w))
         if w:
             note_direct(direct_stream(real, mv, b, rng), info)
             add_cuts(b, 40 if len(b) <= 40 else 12)
@@ -1126,7 +1170,7 @@ def run(ctx):
         for item in json.load(open(path)).get('cases', []):
             ncorpus += 1
             if 'bytes' in item:
-                add_decode(bytes.fromhex(item['bytes']), 'corpus')
+                add_decode(bytes.fromhex(item['bytes']), 'corpus', domain=bool(item.get('domain', False)))
             if 'value' in item:
                 add_value(json_mv(item['value']), 'corpus')
             if 'sequence' in item:
@@ -1208,6 +1252,53 @@ def run(ctx):
                   'wide_str_nested', cuts=(i % 9 == 0))
         add_twin(('arr', [('map', [(k, k) for k in keys]), ('int', -1)]), 'wide_str_twin')
 
+    # ---- strings that start with a special code point (BOM, non-characters, NUL, separators ...) --
+    specials = special_strings(rng, not ctx.thorough())
+    for st in specials:
+        u = st.encode('utf-8')
+        isbig = len(u) > 1000
+        ctx.histogram('special_str', 'U+%04X' % ord(st[0]))
+        out = add_value(('str', u), 'special_str', cuts=len(u) <= 8, big=isbig)
+        # the string in EVERY legal str format (fixstr / str 8 / str 16 / str 32)
+        for name, h in twin_len(len(u), rng, (0xa0, 32), [(1, 0xd9), (2, 0xda), (4, 0xdb)]):
+            if cases.stopped:
+                break
+            b = h + u
+            ctx.histogram('twin_format', 'str:' + name)
+            info = {'kind': 'stream', 'value': mv_json(('str', u)), 'bytes': b.hex() if len(b) < 400 else None, 'domain': True}
+            r = real.unpack(b)
+            ctx.histogram('decode_origin', 'special_str')
+            ctx.histogram('decode_result', 'ok' if r[0] == 'ok' else r[2])
+            ctx.count(('twin', b[:4000], len(b)), True)
+            cases.add('CDec %s %s' % (bytes_term(b), obs_term(r)), info, isbig)
+            cases.add('CSpec %s %s' % (bytes_term(b), value_term(('str', u))), info, isbig)
+            note_direct(direct_stream(real, ('str', u), b, rng, 8 if isbig else 24), info)
+    # as map keys (next to the key a stripping decoder would confuse them with), map values, nested
+    shorts_sp = [st for st in specials if len(st) <= ctx.pick(2, 6)]
+    for i, st in enumerate(shorts_sp):
+        u = ('str', st.encode('utf-8'))
+        rest = ('str', st[1:].encode('utf-8'))
+        other = ('str', shorts_sp[(i + 7) % len(shorts_sp)].encode('utf-8'))
+        keys = []
+        for k in (rest, u, other, ('str', b'')):
+            if k not in keys:
+                keys.append(k)
+        add_value(('map', [(k, ('int', j)) for j, k in enumerate(keys)]), 'special_str_key', cuts=(i % 5 == 0))
+        add_value(('arr', [u, ('map', [(('arr', [u, rest]), u), (('int', 1), ('arr', [rest, u]))]), rest]),
+                  'special_str_nested', cuts=(i % 5 == 0))
+        if ctx.thorough() or i % 3 == 0:
+            add_twin(('map', [(k, k) for k in keys]), 'special_str_twin')
+            add_sequence([('arr', [u] * 5), u, rest], 'special_str_seq')
+    # outside the data model: a str with a lone surrogate is no Unicode string; the packer must not emit
+    # anything for it (CPython's codec raises UnicodeEncodeError) - extended domain, reported separately
+    for st in ('\ud800', 'a\udfff', '\udc80b', '\ud83d'):
+        try:
+            b = um.dumps(st)
+            ctx.extension_failure('dumps packed a str with a lone surrogate (%r) into %d bytes' % (st, len(b)),
+                                  {'kind': 'surrogate', 'codepoints': [ord(c) for c in st]})
+        except Exception as e:                                  # noqa
+            ctx.histogram('lone_surrogate', type(e).__name__)
+
     # ---- all 256 first bytes --------------------------------------------------------------------
     for c in range(256):
         add_decode(bytes([c]), 'first_byte')
@@ -1253,7 +1344,7 @@ def run(ctx):
         cases.add('CUtf8 %s %s' % (bytes_term(s), 'true' if ok else 'false'), {'kind': 'utf8', 'bytes': s.hex()})
         ctx.count(('utf8', s), len(s) > 0)
         if len(s) < 32:
-            add_decode(bytes([0xa0 + len(s)]) + s, 'utf8')
+            add_decode(bytes([0xa0 + len(s)]) + s, 'utf8', domain=ok)
         if ok:
             add_value(('str', s), 'utf8', cuts=False)
 
@@ -1352,6 +1443,14 @@ def run(ctx):
     cov['correspondence_disagreements'] = len(bad_infos)
     ctx.log('correspondence: %d cases, %d disagreements' % (cov['correspondence_cases'], len(bad_infos)))
 
+    # disagreements on inputs outside the stated quantifier domain (mutated / non-well-formed streams ...):
+    # reported as extended-domain failures, never as violations
+    ext_bad = [(t, i) for t, i in bad_infos if i.get('domain') is False]
+    bad_infos = [(t, i) for t, i in bad_infos if i.get('domain') is not False]
+    cov['extended_domain_disagreements'] = len(ext_bad)
+    for t, info in ext_bad[:8]:
+        ctx.extension_failure('model and code disagree on an input outside the stated domain (%s): %s'
+                              % (info.get('origin', info.get('kind')), t[:200]), info)
     if bad_infos and not direct_fail:
         # the model and the code disagree: look for a failure of the property itself around those inputs
         found = False
